@@ -95,3 +95,22 @@ PROPS["C01"] = dict(
     level_note="Known finding D14 (exception before checkout puts back a None never taken) is reported as KNOWN-FINDING and proved absent outside its recorded region. "
                "Assumed: the connection-boundary contracts, sequential use of the pool; the queue invariant and the response-side release are being brought under contract next.",
 )
+
+PROPS["C08"] = dict(
+    contracts=["ssl_match_hostname"],
+    bounded=["c08"],
+    level="other",
+    trusted_base=COMMON_TRUSTED + ["ipaddress.ip_address / hashlib / hmac.compare_digest / binascii.unhexlify: their documented meaning"],
+    assumptions=["_dnsname_match and _ipaddress_match are used by match_hostname at abstract contracts (uninterpreted predicates dns_ok / ip_ok); their concrete behaviour is covered only by the bounded contract",
+                 "three-valued RFC 6125 reference used by the bounded contract: exact case-insensitive match and whole-label left-most wildcard over one non-empty label MUST be accepted; wildcard outside the left-most label, >1 wildcard, spanning dots/empty label, partial wildcard inside or against an xn-- label MUST be rejected; other partial wildcards MAY go either way; host names containing '*' are not reference identities (either)"],
+    not_decided=["a SAN list longer than 3 entries (the deductive part unrolls the SAN loop for lengths 0..3, as the property's quantifier does); _dnsname_match beyond 3x4 labels"],
+    explanation="Two parts. (1) PROVED (VCs over the real match_hostname body, SAN lists of 0..3 entries with fully symbolic keys/values, with and without a subject): it returns normally exactly when some "
+                "entry is permitted to match - a DNS entry only for a non-IP host, an IP entry only for an IP host (zone cut), commonName only when enabled, the host is not an IP and no DNS/IP SAN exists - "
+                "and otherwise raises CertificateError (or ValueError for a malformed IP SAN); nothing else escapes. (2) BOUNDED: the regex-building _dnsname_match against a three-valued RFC 6125 reference for all "
+                "SAN x host names over an 11-label alphabet (2.1e6 pairs quick, 2.4e7 thorough); match_hostname end to end for all SAN lists of <=2/3 entries from an 18-entry pool x 14 hosts x CN on/off; "
+                "assert_fingerprint for pins derived from the true digests by case change, colon insertion, nibble flips, truncation, extension.",
+    level_text="Partial proof + bounded stand-in: the dispatch logic of match_hostname (which entry kinds may match which host kinds, commonName fallback, exception surface) is discharged deductively for SAN lists of 0..3 "
+               "symbolic entries; the run-time-built wildcard regex and the fingerprint comparison are checked exhaustively within stated bounds (complete within the bound, not a proof).",
+    level_note="Bounded parts are labelled bounded and never counted among discharged obligations. Observation (not a finding): a DNS SAN with more than one wildcard rejects the whole certificate even if a later entry matches exactly.",
+    technique="contract-based deductive verification (VCs from the real AST, z3) for match_hostname's dispatch + exhaustive bounded contract checks of _dnsname_match / match_hostname / assert_fingerprint",
+)
